@@ -170,7 +170,7 @@ def support_of(op, desc, g_in):
         return desc.get("_radius", z), True
     if op == "avg_pool":
         ks = desc["kernel_size"]
-        ks = [ks] * D if isinstance(ks, int) else list(ks)
+        ks = [ks] * D if isinstance(ks, int) else list(ks)[::-1]  # given in tensor order (..., X); support is per grid axis (x, ...)
         return [(k - 1) / 2 for k in ks], False
     if op in ("conv1d", "convnd"):
         return desc["_radius"], False
